@@ -484,7 +484,22 @@ func runC03(c *Ctx) {
 			case strings.Contains(lhs, "After"):
 				side = "After"
 			default:
-				return true
+				// a local that is stored as the Before/After side afterwards (`change.Path.Before = before`)
+				if root, _, ok := accessPath(ginfo, as.Lhs[0]); ok && root != nil {
+					ast.Inspect(ch.Decl.Body, func(m ast.Node) bool {
+						st, isAs := m.(*ast.AssignStmt)
+						if !isAs || len(st.Lhs) != 1 || len(st.Rhs) != 1 || objOf(ginfo, st.Rhs[0]) != root {
+							return true
+						}
+						if sel, isSel := ast.Unparen(st.Lhs[0]).(*ast.SelectorExpr); isSel && (sel.Sel.Name == "Before" || sel.Sel.Name == "After") {
+							side = sel.Sel.Name
+						}
+						return true
+					})
+				}
+				if side == "" {
+					return true
+				}
 			}
 			// group per enclosing loop
 			loopID := "top"
@@ -1068,14 +1083,12 @@ func c03PathFilter(c *Ctx, rule string) {
 	}
 	info := fi.Pkg.TypesInfo
 	// the value stored as Path.After.Name in FileChange literals
-	var after []types.Object
+	var after []string
 	for _, cl := range compositeLits(info, fi.Decl.Body, "internal/git.FileChange") {
 		if pd, ok := ast.Unparen(litFieldOr(cl, "Path")).(*ast.CompositeLit); ok {
 			if ap, ok := ast.Unparen(litFieldOr(pd, "After")).(*ast.CompositeLit); ok {
 				if nm := litField(ap, "Name"); nm != nil {
-					if o := objOf(info, nm); o != nil {
-						after = append(after, o)
-					}
+					after = append(after, exprIdentity(info, nm))
 				}
 			}
 		}
@@ -1093,7 +1106,7 @@ func c03PathFilter(c *Ctx, rule string) {
 		n++
 		ok2 := false
 		for _, o := range after {
-			if isObj(info, call.Args[0], o) {
+			if exprIdentity(info, call.Args[0]) == o {
 				ok2 = true
 			}
 		}
@@ -1183,30 +1196,86 @@ func c03Conservation(c *Ctx, rule string) {
 		c.Undecided(rule, "matchEntries:pool, candidates := findRulesByName(...)", me.Decl.Pos(), "call not found")
 		return
 	}
+	// the switch over the number of candidates, tagged (`switch len(c) { case 0: … }`) or
+	// tagless (`switch { case len(c) == 1: … case len(c) > 1: … }`); every arm is a predicate over n
+	isLenCands := func(e ast.Expr) bool {
+		call, ok := ast.Unparen(e).(*ast.CallExpr)
+		return ok && exprStr(call.Fun) == "len" && len(call.Args) == 1 && isObj(info, call.Args[0], cands)
+	}
+	cmpN := func(e ast.Expr) (func(n int64) bool, bool) {
+		be, ok := ast.Unparen(e).(*ast.BinaryExpr)
+		if !ok || !isLenCands(be.X) {
+			return nil, false
+		}
+		k, isC := constInt(info, be.Y)
+		if !isC {
+			return nil, false
+		}
+		switch be.Op {
+		case token.EQL:
+			return func(n int64) bool { return n == k }, true
+		case token.NEQ:
+			return func(n int64) bool { return n != k }, true
+		case token.GTR:
+			return func(n int64) bool { return n > k }, true
+		case token.GEQ:
+			return func(n int64) bool { return n >= k }, true
+		case token.LSS:
+			return func(n int64) bool { return n < k }, true
+		case token.LEQ:
+			return func(n int64) bool { return n <= k }, true
+		}
+		return nil, false
+	}
+	type arm struct {
+		pred func(n int64) bool // nil: default
+		cc   *ast.CaseClause
+	}
 	var sw *ast.SwitchStmt
-	for _, s := range findSwitches(me.Decl.Body, func(s *ast.SwitchStmt) bool {
-		call, ok := ast.Unparen(s.Tag).(*ast.CallExpr)
-		return s.Tag != nil && ok && exprStr(call.Fun) == "len" && len(call.Args) == 1 && isObj(info, call.Args[0], cands)
-	}) {
-		sw = s
+	var arms []arm
+	for _, s := range findSwitches(me.Decl.Body, func(s *ast.SwitchStmt) bool { return true }) {
+		var as []arm
+		ok := len(s.Body.List) > 0
+		for _, st := range s.Body.List {
+			cc := st.(*ast.CaseClause)
+			if cc.List == nil {
+				as = append(as, arm{nil, cc})
+				continue
+			}
+			var preds []func(int64) bool
+			for _, e := range cc.List {
+				if s.Tag != nil {
+					k, isC := constInt(info, e)
+					if !isLenCands(s.Tag) || !isC {
+						ok = false
+						break
+					}
+					preds = append(preds, func(n int64) bool { return n == k })
+				} else if p, isP := cmpN(e); isP {
+					preds = append(preds, p)
+				} else {
+					ok = false
+				}
+			}
+			ps := preds
+			as = append(as, arm{func(n int64) bool {
+				for _, p := range ps {
+					if p(n) {
+						return true
+					}
+				}
+				return false
+			}, cc})
+		}
+		if ok {
+			sw, arms = s, as
+		}
 	}
 	if sw == nil {
 		c.Undecided(rule, "matchEntries:switch on the number of candidates", me.Decl.Pos(), "not found")
 		return
 	}
-	okAll, n := true, 0
-	for _, st := range sw.Body.List {
-		cc := st.(*ast.CaseClause)
-		small := len(cc.List) > 0
-		for _, e := range cc.List {
-			if k, isC := constInt(info, e); !isC || k > 1 {
-				small = false
-			}
-		}
-		if small {
-			continue // zero candidates: nothing taken; one candidate: it is paired
-		}
-		n++
+	putsBack := func(cc *ast.CaseClause) bool {
 		back := false
 		for _, b := range cc.Body {
 			ast.Inspect(b, func(m ast.Node) bool {
@@ -1221,7 +1290,34 @@ func c03Conservation(c *Ctx, rule string) {
 				return true
 			})
 		}
-		if !back {
+		return back
+	}
+	okAll, n := true, 0
+	seenArm := map[*ast.CaseClause]bool{}
+	for _, cnt := range []int64{2, 3, 4, 17} {
+		var hit *ast.CaseClause
+		var deflt *ast.CaseClause
+		for _, a := range arms {
+			if a.pred == nil {
+				deflt = a.cc
+				continue
+			}
+			if hit == nil && a.pred(cnt) {
+				hit = a.cc
+			}
+		}
+		if hit == nil {
+			hit = deflt
+		}
+		if hit == nil {
+			okAll = false // several candidates taken out and no arm deals with them
+			continue
+		}
+		if !seenArm[hit] {
+			seenArm[hit] = true
+			n++
+		}
+		if !putsBack(hit) {
 			okAll = false
 		}
 	}
